@@ -19,11 +19,15 @@ SPE = 2  # slots per epoch of the virtual beacon network, the same in every Slas
 
 def _tier(tier):
     if tier == "quick":
-        return dict(mc="Slashing_quick.cfg", mc_stop=900, cover="Slashing_cover.cfg", max_leaves=1500, extra_edges=700,
-                    sim=("Slashing_sim.cfg", 300, 40), record_runs=150, conc_rounds=25, race=False,
+        return dict(mc="Slashing_quick.cfg", mc_stop=900, cover="Slashing_cover.cfg", max_leaves=1200, extra_edges=500,
+                    cover_att=("Slashing_cover_att.cfg", 900, 200),
+                    sim=("Slashing_sim.cfg", 200, 40), sim_att=("Slashing_sim_att.cfg", 200, 50),
+                    record_runs=150, conc_rounds=20, race=False,
                     apalache=False, per_invariant=False, inert_small=True)
     return dict(mc="Slashing_thorough.cfg", mc_stop=1800, cover="Slashing_cover_thorough.cfg", max_leaves=12000,
-                extra_edges=8000, sim=("Slashing_sim.cfg", 4000, 60), record_runs=3000, conc_rounds=400, race=True,
+                extra_edges=8000, cover_att=("Slashing_cover_att.cfg", 4000, 3000),
+                sim=("Slashing_sim.cfg", 4000, 60), sim_att=("Slashing_sim_att.cfg", 4000, 80),
+                record_runs=3000, conc_rounds=400, race=True,
                 apalache=True, per_invariant=False, inert_small=False)
 
 
@@ -35,6 +39,7 @@ ATTACKS = [
     ("Slashing_attack_noUpdate.cfg", "record not raised when signing"),
     ("Slashing_attack_bumpFromStaleClock.cfg", "add / reactivation bumps from a clock one epoch behind"),
     ("Slashing_attack_bumpFromStaleSlot.cfg", "add / reactivation bumps from a clock one slot behind"),
+    ("Slashing_attack_bumpKeepsSource.cfg", "bump raises only the target; source carried over, 0 for a share without record"),
     ("Slashing_attack_signWhenMissing.cfg", "missing record treated as nothing signed yet"),
     ("Slashing_attack_releaseBeforePersist.cfg", "signature handed out before the record is durable"),
     ("Slashing_attack_blockSlotLT.cfg", "block slot compared with < instead of <="),
@@ -58,6 +63,7 @@ BREAKS = {   # which clauses of the property each weakening breaks (measured onc
     "Slashing_attack_noUpdate.cfg": ["NoDoubleVote", "NoSurround", "NoDoubleBlock"],
     "Slashing_attack_bumpFromStaleClock.cfg": ["NoDoubleVote", "NoSurround", "NoDoubleBlock"],
     "Slashing_attack_bumpFromStaleSlot.cfg": ["NoDoubleVote", "NoSurround", "NoDoubleBlock"],
+    "Slashing_attack_bumpKeepsSource.cfg": ["NoSurround"],
     "Slashing_attack_signWhenMissing.cfg": ["NoDoubleVote", "NoSurround", "NoDoubleBlock", "RefuseWhenUnknown"],
     "Slashing_attack_releaseBeforePersist.cfg": ["NoDoubleVote", "NoSurround", "NoDoubleBlock"],
     "Slashing_attack_blockSlotLT.cfg": ["NoDoubleBlock"],
@@ -107,7 +113,7 @@ def _attack_runs(T):
         jobs.append((cfg.replace(".cfg", ""), "inert:" + desc, cfg.replace(".cfg", "_run.cfg"), src))
     # one counterexample per violated clause of the property, not only the first one TLC meets
     # (the clauses each weakening breaks; with per_invariant all four are tried and the others exhausted)
-    for cfg, desc in ATTACKS[:8] + DEVIATIONS:
+    for cfg, desc in ATTACKS[:9] + DEVIATIONS:
         src = open(os.path.join(vlib.SPEC, cfg)).read()
         for inv in (CLAUSES if T["per_invariant"] else BREAKS[cfg]):
             if cfg.startswith("Slashing_fault") and inv not in BREAKS[cfg]:
@@ -152,12 +158,34 @@ def _attack_runs(T):
         return list(ex.map(one, jobs))
 
 
+def _danger(acts):
+    """Is the LAST request of the behaviour slashable against what the behaviour released before it?
+    Those are the requests a weakened guard would let through: they are replayed first."""
+    a = acts[-1]
+    if a.get("name") == "SignAtt":
+        out = None
+        for x in acts[:-1]:
+            if x.get("name") == "SignAtt" and x.get("rel"):
+                if x["t"] == a["t"] and (x["s"], x["d"]) != (a["s"], a["d"]):
+                    out = out or "double"
+                if (x["s"] < a["s"] and a["t"] < x["t"]) or (a["s"] < x["s"] and x["t"] < a["t"]):
+                    out = "surround"
+        return out
+    if a.get("name") == "SignBlk":
+        for x in acts[:-1]:
+            if x.get("name") == "SignBlk" and x.get("rel") and x["slot"] == a["slot"] and x["d"] != a["d"]:
+                return "double"
+    return None
+
+
 def _select(behs, cap, seed):
-    """At most `cap` cover behaviours, spread over the kinds of their last call (round robin over the kinds)."""
+    """At most `cap` cover behaviours: first those whose last request would be slashable against the behaviour's own
+    released signatures (up to 60% of cap, spread over the fault/rebuild kinds), the rest round robin over the kinds
+    of the last call."""
     import random
     if len(behs) <= cap:
         return behs
-    groups = {}
+    groups, hot = {}, {}
     for b in behs:
         acts = [st["act"] for st in b["steps"]]
         a = acts[-1]
@@ -171,23 +199,32 @@ def _select(behs, cap, seed):
                     seen = True
                 elif seen and x.get("name") in ("AddShare", "Reactivate", "RemoveShare") and x.get("res") in ("ok", "crash"):
                     rebuilt = True
+        dg = _danger(acts)
         key = (a.get("name"), a.get("res"), (a.get("fault") or {}).get("k"), (a.get("fault") or {}).get("at"), rebuilt,
                a.get("d") if rebuilt else None)
-        groups.setdefault(key, []).append(b)
+        if dg:
+            hot.setdefault((dg,) + key, []).append(b)
+        else:
+            groups.setdefault(key, []).append(b)
     rng = random.Random(seed)
-    for g in groups.values():
-        rng.shuffle(g)
-    out = []
-    keys = sorted(groups, key=str)
-    while len(out) < cap:
-        progressed = False
-        for k in keys:
-            if groups[k] and len(out) < cap:
-                out.append(groups[k].pop())
-                progressed = True
-        if not progressed:
-            break
-    return out
+
+    def rr(gs, n):
+        for g in gs.values():
+            rng.shuffle(g)
+        out, keys = [], sorted(gs, key=str)
+        while len(out) < n:
+            progressed = False
+            for k in keys:
+                if gs[k] and len(out) < n:
+                    out.append(gs[k].pop())
+                    progressed = True
+            if not progressed:
+                break
+        return out
+    first = rr(hot, (cap * 6) // 10)
+    for k, g in hot.items():      # what did not fit competes with the rest
+        groups.setdefault(k, []).extend(g)
+    return first + rr(groups, cap - len(first))
 
 
 def _apalache(wd):
@@ -198,6 +235,7 @@ def _apalache(wd):
         ("init", ["--init=Init", "--inv=IndInv", "--length=0"], "NoError"),
         ("step", ["--init=IndInit", "--inv=IndInv", "--length=1"], "NoError"),
         ("step_weakened_must_fail", ["--init=IndInit", "--next=NextW", "--inv=IndInv", "--length=1"], "Error"),
+        ("step_bumpKeepsSource_must_fail", ["--init=IndInit", "--next=NextB", "--inv=IndInv", "--length=1"], "Error"),
     ]
 
     def one(ob):
@@ -218,7 +256,7 @@ def _apalache(wd):
         return {"obligation": name, "cmd": "apalache-mc check " + " ".join(args) + " SlashInd.tla", "outcome": got,
                 "expected": want, "wall_s": round(time.time() - t0, 1)}
 
-    with concurrent.futures.ThreadPoolExecutor(max_workers=3) as ex:
+    with concurrent.futures.ThreadPoolExecutor(max_workers=4) as ex:
         obs = list(ex.map(one, obligations))
     ok = all(o["outcome"] == o["expected"] for o in obs)
     stalled = any(o["outcome"] in ("timeout", "unknown") for o in obs)
@@ -236,12 +274,15 @@ def run(tier, seed):
     os.makedirs(wd, exist_ok=True)
 
     # everything that only needs TLC / Apalache runs side by side
-    pool = concurrent.futures.ThreadPoolExecutor(max_workers=4)
+    pool = concurrent.futures.ThreadPoolExecutor(max_workers=6)
     fut_attacks = pool.submit(_attack_runs, T)
     fut_apalache = pool.submit(_apalache, wd) if T["apalache"] else None
     fut_cover = pool.submit(vlib.tlc_dump_graph, MOD, T["cover"], None, 1800, None, 4)
     cfg, num, depth = T["sim"]
     fut_sim = pool.submit(vlib.tlc_simulate, MOD, cfg, num, depth, seed, None, 1500, None, ["act"])
+    fut_cover2 = pool.submit(vlib.tlc_dump_graph, MOD, T["cover_att"][0], None, 1800, None, 4)
+    cfg2, num2, depth2 = T["sim_att"]
+    fut_sim2 = pool.submit(vlib.tlc_simulate, MOD, cfg2, num2, depth2, seed + 7919, None, 1500, None, ["act"])
 
     # 1. exhaustive model checking of the faithful spec
     r = _tlc(MOD, T["mc"], workers=8, timeout=T["mc_stop"] + 600, stop_after=T["mc_stop"])
@@ -267,6 +308,19 @@ def run(tier, seed):
     gstat["leaves_replayed"] = min(len(leaves), T["max_leaves"])
     cov["cover_graph"] = gstat
     log("[C04] cover graph %s: %s" % (T["cover"], gstat))
+    # 2b. attestation-only cover reaching epoch 3 with two add/remove cycles (surround histories need 4 epochs)
+    cfga, capa, extraa = T["cover_att"]
+    rga, nodesa, edgesa, initsa = fut_cover2.result()
+    if not rga.finished and not rga.violation and not nodesa:
+        rga, nodesa, edgesa, initsa = vlib.tlc_dump_graph(MOD, cfga, timeout=1800, workers=4)
+    if not vlib.expect_tlc_ok(rga, cfga):
+        raise vlib.MachineryError("cover config violates %s:\n%s" % (rga.violation, _acts(rga.trace)))
+    behsa, gstata = vlib.graph_behaviours(nodesa, edgesa, initsa, seed, max_extra=extraa, kind="coveratt")
+    leavesa = [b for b in behsa if "-leaf-" in b["id"]]
+    behs += _select(leavesa, capa, seed) + [b for b in behsa if "-leaf-" not in b["id"]]
+    gstata["leaves_replayed"] = min(len(leavesa), capa)
+    cov["cover_graph_att"] = gstata
+    log("[C04] cover graph %s: %s" % (cfga, gstata))
     # 3. simulated behaviours of a larger faithful config
     rs, sb = fut_sim.result()
     _phase("simulation done")
@@ -274,8 +328,13 @@ def run(tier, seed):
         raise vlib.MachineryError("simulation config: %s %s\n%s" % (rs.violation, rs.error, _acts(rs.trace)))
     for k, b in enumerate(sb):
         behs.append(vlib.trace_behaviour(b, "sim-%d" % k, "sim"))
-    cov["sim_behaviours"] = len(sb)
-    transitions += rs.generated
+    rs2, sb2 = fut_sim2.result()
+    if rs2.violation or rs2.error:
+        raise vlib.MachineryError("simulation config: %s %s\n%s" % (rs2.violation, rs2.error, _acts(rs2.trace)))
+    for k, b in enumerate(sb2):
+        behs.append(vlib.trace_behaviour(b, "simatt-%d" % k, "sim"))
+    cov["sim_behaviours"] = len(sb) + len(sb2)
+    transitions += rs.generated + rs2.generated
 
     # 4. attack traces
     attack_behs = []
@@ -320,7 +379,7 @@ def run(tier, seed):
     tr = os.path.join(wd, "trace.ndjson")
     outr = os.path.join(wd, "record_result.json")
     vlib.run_driver(binq, ["-mode", "record", "-trace", tr, "-out", outr, "-seed", str(seed), "-runs",
-                           str(T["record_runs"]), "-spe", str(SPE), "-maxslot", "13"], timeout=3000)
+                           str(T["record_runs"]), "-spe", str(SPE), "-maxslot", "17"], timeout=3000)
     res2 = json.load(open(outr))
     _collect(res2, verdict, "record:seed=%d:runs=%d" % (seed, T["record_runs"]), wd)
     accepted, consumed, nlines, rt = vlib.tlc_validate_trace("SlashingTrace", "SlashingTrace.cfg", tr, timeout=2400)
@@ -440,7 +499,7 @@ def replay(path):
         else:
             vlib.run_driver(binq, ["-mode", "record", "-trace", os.path.join(wd, "replay_trace.ndjson"), "-out", outp,
                                    "-seed", parts["seed"], "-runs", parts.get("runs", "150"), "-spe", str(SPE),
-                                   "-maxslot", "13"])
+                                   "-maxslot", "17"])
     else:
         vlib.run_driver(binq, ["-mode", "replay", "-in", path, "-out", outp, "-spe", str(SPE)])
     _collect(json.load(open(outp)), verdict, path, wd)
